@@ -17,8 +17,10 @@ def out {α : Type} (f : α → String) : Except Err α → String
   | .ok a => "ok " ++ f a
   | .error e => e.render
 
-/-- precision field: `N` none, else a fraction -/
-def parsePrec (s : String) : Option (Option Frac) := parseOLen s
+/-- precision field: `N` none, `D` the library default, else a fraction -/
+def parsePrecD (dflt : Frac) (s : String) : Option (Option Frac) :=
+  if s == "D" then some (some dflt) else parseOLen s
+def parsePrec (s : String) : Option (Option Frac) := parsePrecD defaultPrec s
 
 def parseNorm (s : String) : Option Norm :=
   match s with
@@ -89,10 +91,10 @@ def handle (ws : List String) : String :=
       | "collessparts" => out (fun (p : Nat × Nat) => s!"{p.2} {p.1}") (collessAcc t)
       | "b1" => "ok " ++ (b1 t).render
       | "treeness" => out Frac.render (treeness t)
-      | "gamma" => match parsePrec arg with
+      | "gamma" => match parsePrecD gammaDefaultPrec arg with
         | some p => out Frac.render (gamma p t)
         | none => "bad-op"
-      | "gammaparts" => match parsePrec arg with
+      | "gammaparts" => match parsePrecD gammaDefaultPrec arg with
         | some p =>
           match calcNodeAges ⟨p, false, false⟩ t with
           | .error e => e.render
